@@ -48,6 +48,7 @@ package pfcp
 //@   ensures [empty]  len(s.PDRIDs) == 0 && len(s.FARIDs) == 0 && len(s.QERIDs) == 0 && len(s.URRIDs) == 0 && len(s.BARIDs) == 0 && len(s.q) == 0
 //@   ensures [id]     s.LocalID != 0 && (forall id uint64 :: id == s.LocalID ==> !old(live(n, id))) && live(n, s.LocalID) && n.sess[s.LocalID-1] == s
 //@   ensures [others] forall id uint64 :: id != s.LocalID ==> (live(n, id) == old(live(n, id))) && (old(live(n, id)) ==> n.sess[id-1] == old(n.sess[id-1]))
+//@   ensures [slots]  forall i int :: 0 <= i && i < len(n.sess) ==> n.sess[i] == s || (i < old(len(n.sess)) && n.sess[i] == old(n.sess[i]))
 //@   ensures [wf]     lnodeWF(n)
 //@   modifies n.sess, n.free, n.sess[_]
 //@   owns s.PDRIDs by s
